@@ -503,13 +503,32 @@ def gen_scenario(rng, idx, matrix=None):
 # C25: multi-file Veryl projects (filelist order / completeness / path mapping)
 # =====================================================================================================
 
+def qual(s, t, dep_alias):
+    return t["name"] if t["prj"] == s["prj"] else "%s::%s" % (dep_alias, t["name"])
+
+
 def sym_text(s, syms, dep_alias):
-    """Veryl text of one symbol; references only to earlier symbols (acyclic at the symbol level)"""
+    """Veryl text of one symbol; references only to earlier symbols (acyclic at the symbol level).
+    s["forms"][ref] says HOW a package is referenced: const | iwild | iitem (imports in the body) |
+    fwild | fitem (file-scope imports, emitted by file_imports); s["ginst"] = [(generic, package)]:
+    instantiations of a generic module (type argument P::word_t) or generic package (const argument P::X)."""
     body = []
+    forms = s.get("forms", {})
     for k, r in enumerate(s["refs"]):
         t = syms[r]
-        tn = t["name"] if t["prj"] == s["prj"] else "%s::%s" % (dep_alias, t["name"])
-        if s["kind"] == "module":
+        if t.get("generic"):
+            continue
+        tn = qual(s, t, dep_alias)
+        f = forms.get(r, "const")
+        if f == "viaarg":
+            continue                                   # the generic argument is the only link
+        if t["kind"] == "package" and f in ("fwild", "fitem") and t["file"] != s["file"]:
+            continue                                   # the file-scope import is the only link
+        if t["kind"] == "package" and f == "iwild" and s["kind"] == "module":
+            body.append("import %s::*;" % tn)
+        elif t["kind"] == "package" and f == "iitem" and s["kind"] == "module":
+            body.append("import %s::K%d; const c%d: u32 = K%d;" % (tn, t["id"], k, t["id"]))
+        elif s["kind"] == "module":
             if t["kind"] == "module":
                 body.append("inst u%d: %s;" % (k, tn))
             elif t["kind"] == "interface":
@@ -520,12 +539,39 @@ def sym_text(s, syms, dep_alias):
             body.append("const c%d: u32 = %s::X;" % (k, tn))
         else:
             body.append("const c%d: u32 = %s::X + 1;" % (k, tn))
+    for k, (gi, pi) in enumerate(s.get("ginst", [])):
+        gsym, psym = syms[gi], syms[pi]
+        gn, pn = qual(s, gsym, dep_alias), qual(s, psym, dep_alias)
+        if gsym["kind"] == "module":
+            body.append("inst g%d: %s::<%s::word_t>;" % (k, gn, pn))
+        else:
+            body.append("const g%d: u32 = %s::<%s::X>::Y%s;" % (k, gn, pn, "" if s["kind"] != "package" else " + 1"))
     pub = "pub " if s["prj"] == "dep" else ""
+    if s.get("generic"):
+        if s["kind"] == "module":
+            return "%smodule %s::<T: type> { var v: T; assign v = 0; }" % (pub, s["name"])
+        return "%spackage %s::<V: u32> { const Y: u32 = V; }" % (pub, s["name"])
     if s["kind"] == "module":
         return "%smodule %s { %s }" % (pub, s["name"], " ".join(body))
     if s["kind"] == "interface":
         return "%sinterface %s { %s var v: logic; modport mp { v: input } }" % (pub, s["name"], " ".join(body))
-    return "%spackage %s { const X: u32 = %d; %s }" % (pub, s["name"], 1 + s["id"], " ".join(body))
+    return "%spackage %s { const X: u32 = %d; const K%d: u32 = %d; type word_t = logic<%d>; %s }" % (
+        pub, s["name"], 1 + s["id"], s["id"], 2 + s["id"], 1 + s["id"] % 7, " ".join(body))
+
+
+def file_imports(ids, syms, dep_alias):
+    """file-scope imports (before the first item of the file) for references of form fwild / fitem"""
+    out = []
+    for i in ids:
+        s = syms[i]
+        for r in s["refs"]:
+            t = syms[r]
+            f = s.get("forms", {}).get(r)
+            if t["kind"] == "package" and not t.get("generic") and f in ("fwild", "fitem") and t["file"] != s["file"]:
+                ln = "import %s::%s;" % (qual(s, t, dep_alias), "*" if f == "fwild" else "K%d" % t["id"])
+                if ln not in out:
+                    out.append(ln)
+    return out
 
 
 def allowed_ref(user, target):
@@ -542,6 +588,10 @@ def file_graph(syms):
         for r in s["refs"]:
             if syms[r]["file"] != s["file"]:
                 edges.add((s["file"], syms[r]["file"]))     # user -> definition
+        # an instance of a generic is emitted into the generic's file: that file needs the argument's package
+        for gi, pi in s.get("ginst", []):
+            if syms[gi]["file"] != syms[pi]["file"]:
+                edges.add((syms[gi]["file"], syms[pi]["file"]))
     return edges
 
 
@@ -577,20 +627,52 @@ def gen_project(rng, idx, force=None):
         for i in range(ndep + nsym):
             prj = "dep" if i < ndep else "main"
             kind = rng.choice(["module", "module", "module", "package", "package", "interface"])
+            generic = kind in ("module", "package") and rng.random() < 0.18
             s = {"id": i, "prj": prj, "kind": kind,
-                 "name": {"module": "M", "package": "P", "interface": "I"}[kind] + ("d" if prj == "dep" else "") + str(i),
-                 "refs": []}
+                 "name": ("G" if generic else "") + {"module": "M", "package": "P", "interface": "I"}[kind] + ("d" if prj == "dep" else "") + str(i),
+                 "refs": [], "forms": {}, "ginst": []}
+            if generic:
+                s["generic"] = True
+                syms.append(s)
+                continue
             cands = [t for t in syms if allowed_ref(s, t)]
+            pkgs = [t for t in cands if t["kind"] == "package" and not t.get("generic")]
             for _ in range(rng.choice([0, 1, 1, 2, 3])):
                 if cands:
                     t = rng.choice(cands)
+                    if t.get("generic"):
+                        # 1-3 instantiations with arguments P::word_t / P::X (the same last identifier in every package)
+                        if not pkgs or (t["kind"] == "module" and s["kind"] != "module"):
+                            continue
+                        okp = [x for x in pkgs if not (t["prj"] == "dep" and x["prj"] != "dep")]
+                        for pk in rng.sample(okp, min(len(okp), rng.randint(1, 3))):
+                            if (t["id"], pk["id"]) not in s["ginst"]:
+                                s["ginst"].append((t["id"], pk["id"]))
+                                for x in (t["id"], pk["id"]):
+                                    if x not in s["refs"]:
+                                        s["refs"].append(x)
+                                        s["forms"][x] = "const" if x == t["id"] else "viaarg"
+                        continue
                     if t["id"] not in s["refs"]:
                         s["refs"].append(t["id"])
+                        if t["kind"] == "package":
+                            s["forms"][t["id"]] = rng.choice(["const", "const", "fwild", "fitem", "iwild", "iitem"])
+            # make instantiations of generics common: every generic that can be used here gets a chance
+            for t in cands:
+                if t.get("generic") and rng.random() < 0.5 and (t["kind"] == "package" or s["kind"] == "module"):
+                    okp = [x for x in pkgs if not (t["prj"] == "dep" and x["prj"] != "dep")]
+                    for pk in rng.sample(okp, min(len(okp), rng.randint(1, 3))):
+                        if (t["id"], pk["id"]) not in s["ginst"]:
+                            s["ginst"].append((t["id"], pk["id"]))
+                            for x in (t["id"], pk["id"]):
+                                if x not in s["refs"]:
+                                    s["refs"].append(x)
+                                    s["forms"][x] = "const" if x == t["id"] else "viaarg"
             syms.append(s)
         # files
         roots = force.get("roots") or rng.choice([["src"], ["src"], ["src", "rtl"], ["hdl/core"], ["."]])
         subdirs = ["", "", "x", "y", "x/deep"]
-        fnames = ["a", "b", "c", "top", "pkg", "a.b"]
+        fnames = [pre + b for pre in ("", "", "aa_", "mm_", "zz_") for b in ("a", "b", "c", "top", "pkg", "a.b")]
         files = {}           # (prj, relpath) -> [symbol ids]
         mains = [s for s in syms if s["prj"] == "main"]
         deps = [s for s in syms if s["prj"] == "dep"]
@@ -655,10 +737,10 @@ def gen_project(rng, idx, force=None):
         order = sorted(ids)
         if not any(any(syms[r]["file"] == syms[i]["file"] for r in syms[i]["refs"]) for i in ids):
             rng.shuffle(order)
-        text = "\n".join(sym_text(syms[i], syms, "d1") for i in order) + "\n"
+        text = "\n".join(file_imports(order, syms, "d1") + [sym_text(syms[i], syms, "d1") for i in order]) + "\n"
         layout[("prj/" if prj == "main" else "dep1/") + rel] = text
     if examples:
-        m = [s for s in mains if s["kind"] == "module"]
+        m = [s for s in mains if s["kind"] == "module" and not s.get("generic")]
         layout["prj/examples/ex.veryl"] = "module Ex { %s }\n" % ("inst u: %s;" % m[0]["name"] if m else "")
     if rng.random() < 0.2:
         layout["prj/" + (roots[0] + "/" if roots[0] != "." else "") + "only_comment.veryl"] = "// nothing here\n"
